@@ -52,7 +52,8 @@ namespace awkward {
       writer.Double(value.GetDouble());
     }
     else if (value.IsString()) {
-      writer.String(value.GetString());
+      writer.String(value.GetString(),
+                    (rj::SizeType)value.GetStringLength());
     }
     else if (value.IsArray()) {
       writer.StartArray();
@@ -64,7 +65,8 @@ namespace awkward {
     else if (value.IsObject()) {
       writer.StartObject();
       for (auto it = value.MemberBegin();  it != value.MemberEnd();  ++it) {
-        writer.Key(it->name.GetString());
+        writer.Key(it->name.GetString(),
+                   (rj::SizeType)it->name.GetStringLength());
         copyjson(it->value, writer);
       }
       writer.EndObject();
